@@ -181,6 +181,7 @@ class DeviceBench:
         phy, link, proto, ep = self.phy, self.link, self.proto, self.ep
         hs = proto.endpoint_interface.handshakes_out
         eif = proto.endpoint_interface
+        hin = eif.handshakes_in
         ev = []
         info = {"skipped": 0, "ups": 0, "downs": 0, "marks": {}}
         parser = TxStreamParser()
@@ -193,7 +194,7 @@ class DeviceBench:
             bringup=False, exp=0, letter=0, ackq=[], hold_ack=0, lbad_next=0, dropping=False, adv_due=None,
             auto_ack=3, auto_ka=150, crd_delay=0, last_prx=0, hold_auto=False, hot_pending=False,
             # device traffic as accepted by the partner
-            dev_hdrs=0, dev_dps=0, dph=None, dpp=None, reqs=0,
+            dev_hdrs=0, dev_dps=0, dph=None, dpp=None, reqs=0, tp_seen=0, devlog=[], served=0,
             # IN endpoint stream feeder
             feed=[], feed_gap=0, feed_wait=0,
             # timestamp sampling
@@ -287,6 +288,10 @@ class DeviceBench:
             # (a header with bad CRCs is logged as well: the specification rejects it -- the wire is error free)
             st["exp"] = (st["exp"] + 1) % 8
             st["dev_hdrs"] += 1
+            # (stimulus side only: what kind of answer the host has just received, for the reactive host of `serve_in`)
+            typ, sub, epn = ws[0] & 0x1F, ws[1] & 0xF, (ws[1] >> 8) & 0xF
+            st["devlog"].append((epn, "dp" if typ == 8 else {1: "ack", 2: "nrdy", 3: "erdy", 5: "stall"}.get(sub, "?")
+                                 if typ == 4 else "other"))
             log({"e": "dhp", "w": limbs_of(ws), "c": ctrl})
             st["ackq"].append([st["cycle"] + st["auto_ack"] + st["hold_ack"], "ack", f["seq"]])
             if is_dph:
@@ -464,6 +469,15 @@ class DeviceBench:
                     elif kind == "other" and st["up"]:
                         log({"e": "tx_other", "lo": x[1] & 0xFFFF, "hi": x[1] >> 16, "ctrl": x[2]})
             # ---- protocol-level ports of the composition
+            # (a transaction packet is an event of the specification when the protocol layer *reports* it to the endpoints:
+            # `tpd` = delivered on the wire, `tp` = reported, with the fields shown at the port; inputs before their effects)
+            if ctx.get(hin.ack_received):
+                st["tp_seen"] += 1
+                log({"e": "tp", "sub": 1, "ep": ctx.get(hin.endpoint_number) & 15, "seq": ctx.get(hin.next_sequence),
+                     "nump": ctx.get(hin.number_of_packets), "rty": ctx.get(hin.retry_required)})
+            if ctx.get(hin.status_received):
+                st["tp_seen"] += 1
+                log({"e": "tp", "sub": 4, "ep": ctx.get(hin.endpoint_number) & 15, "seq": 0, "nump": 0, "rty": 0})
             if ctx.get(hs.ready):
                 for kname, sig in (("ack", hs.send_ack), ("stall", hs.send_stall), ("nrdy", hs.send_nrdy),
                                    ("erdy", hs.send_erdy)):
@@ -638,6 +652,48 @@ class DeviceBench:
                     target = st["dev_hdrs"] + op[1]
                     await wait_until(lambda: st["dev_hdrs"] >= target and st["dph"] is None or not st["up"],
                                      op[2] if len(op) > 2 else 150)
+                elif k == "serve_in":
+                    # reactive host for one IN packet of endpoint op[1] with sequence number op[2]: polls after an ERDY (if no
+                    # request of its own is outstanding: op[3] = requests already outstanding), waits after an NRDY,
+                    # acknowledges the data packet (NumP 0) and returns; gives up after op[4] cycles
+                    epn, seq, out_req = op[1], op[2], op[3]
+                    limit = op[4] if len(op) > 4 else 200
+                    n = 0
+                    done = False
+                    while n < limit and not done and st["up"]:
+                        while st["served"] < len(st["devlog"]) and not done:
+                            e_ep, kind = st["devlog"][st["served"]]
+                            if e_ep != epn:
+                                st["served"] += 1
+                                continue
+                            if kind == "dp":
+                                if st["dph"] is not None:
+                                    break                       # payload still on the wire
+                                st["served"] += 1
+                                await send_packet(tp_dw(st["addr"], 1, epn, (seq + 1) % 32, 0, 0),
+                                                  {"e": "tpd", "sub": 1, "ep": epn, "seq": (seq + 1) % 32, "nump": 0, "rty": 0})
+                                done = True
+                            elif kind == "nrdy":
+                                st["served"] += 1
+                                out_req = max(0, out_req - 1)
+                            elif kind == "erdy":
+                                st["served"] += 1
+                                if out_req == 0:
+                                    out_req = 1
+                                    await send_packet(tp_dw(st["addr"], 1, epn, seq, 1, 0),
+                                                      {"e": "tpd", "sub": 1, "ep": epn, "seq": seq, "nump": 1, "rty": 0})
+                            else:
+                                st["served"] += 1
+                        if not done:
+                            await cycle()
+                            n += 1
+                    if not done:
+                        info["unserved"] = info.get("unserved", 0) + 1
+                elif k == "mark_served":
+                    st["served"] = len(st["devlog"])        # answers received so far are history for `serve_in`
+                elif k == "wait_seen":
+                    target = st["tp_seen"] + (op[1] if len(op) > 1 else 1)
+                    await wait_until(lambda: st["tp_seen"] >= target, op[2] if len(op) > 2 else 60)
                 elif k == "wait_req":
                     target = st["reqs"] + 1
                     await wait_until(lambda: st["reqs"] >= target, op[1] if len(op) > 1 else 60)
@@ -664,7 +720,7 @@ class DeviceBench:
                     sub = {"ack": 1, "status": 4}[f["sub"]]
                     dws = tp_dw(f.get("addr", st["addr"]), sub, f["ep"], f.get("seq", 0), f.get("nump", 0), f.get("rty", 0),
                                 direction=f.get("dir", 0), he=f.get("he", 0), pp=f.get("pp", 0))
-                    rec = {"e": "tp", "sub": sub, "ep": f["ep"], "seq": f.get("seq", 0), "nump": f.get("nump", 0),
+                    rec = {"e": "tpd", "sub": sub, "ep": f["ep"], "seq": f.get("seq", 0), "nump": f.get("nump", 0),
                            "rty": f.get("rty", 0)}
                     await send_packet(dws, rec, opts=o)
                 elif k == "itp":
